@@ -21,6 +21,7 @@ from eliot import (  # noqa: E402
     start_action,
 )
 from eliot._output import Destinations  # noqa: E402
+from eliot import ValidationError as EliotValidationError  # noqa: E402
 
 PROPERTY = "C13"
 LEVEL = "fault_enumeration"
@@ -93,7 +94,7 @@ class ControlFlowFault(BaseException):
 
 import asyncio  # noqa: E402
 
-FAULTS = [SerFault, OtherFault, KeyError, ZeroDivisionError, StopIteration, IndexError, asyncio.CancelledError, ControlFlowFault]
+FAULTS = [SerFault, OtherFault, KeyError, ZeroDivisionError, StopIteration, IndexError, asyncio.CancelledError, ControlFlowFault, EliotValidationError]
 
 SERS = {
     "id": (lambda v: v, "any"),
@@ -196,6 +197,7 @@ class Scenario(object):
                 continue
             if fault is not None:
                 rec["fault"] = True
+                rec["raising"] = rec.get("raising", 0) + 1
             try:
                 rec["declared"][key] = fn(copy.deepcopy(py))
             except Exception:
@@ -424,6 +426,12 @@ def check(case):
             i = reports[0]
             require(i >= 1 and msgs[i - 1].get("message_type") == "eliot:traceback", "traceback-missing", lambda: "no eliot:traceback directly before the serialization_failure of %s" % token)
             tb, sf = msgs[i - 1], msgs[i]
+            run = 0
+            while i - 1 - run >= 0 and msgs[i - 1 - run].get("message_type") == "eliot:traceback" and msgs[i - 1 - run]["task_uuid"] == tb["task_uuid"] and msgs[i - 1 - run]["task_level"][:-1] == tb["task_level"][:-1]:
+                run += 1
+            require(run == 1, "traceback-count", lambda: "%d eliot:traceback messages directly before the serialization_failure of %s message %s, expected exactly one" % (run, rec["kind"], token))
+            if rec.get("raising", 0) >= 2:
+                info["multi_fault"] = info.get("multi_fault", 0) + 1
             n_tb = sum(1 for k in (i - 2,) if k >= 0 and msgs[k].get("message_type") == "eliot:traceback" and False)
             ctx = rec["ctx"]
             for r, name in ((tb, "traceback"), (sf, "serialization_failure")):
@@ -497,6 +505,8 @@ def classify(case, info):
         labels.append("fault-on-start-or-end")
     if info["standalone_reports"]:
         labels.append("stand-alone-reports")
+    if info.get("multi_fault"):
+        labels.append("several-serializers-of-one-message-fail")
     if info["nonidem"]:
         labels.append("non-idempotent-serializer-hit")
     if case.get("globals"):
@@ -535,13 +545,18 @@ def field_specs():
                     st.none(),
                     st.none(),
                     st.none(),
-                    st.tuples(st.just("raise"), st.integers(0, 7)).map(list),
+                    st.tuples(st.just("raise"), st.integers(0, 8)).map(list),
                     st.just(["omit"]),
                 ),
             ).map(list)
         )
 
-    return st.lists(st.sampled_from(KEYS), max_size=3, unique=True).flatmap(lambda ks: st.tuples(*[one(k) for k in ks]).map(list))
+    def all_fail(specs, picks):
+        # several serializers of one message failing at once
+        return [[k, ser, v, ["raise", picks[i % len(picks)]]] for i, (k, ser, v, _) in enumerate(specs)]
+
+    plain = st.lists(st.sampled_from(KEYS), max_size=3, unique=True).flatmap(lambda ks: st.tuples(*[one(k) for k in ks]).map(list))
+    return st.one_of(plain, plain, plain, plain, st.builds(all_fail, plain, st.lists(st.integers(0, 8), min_size=1, max_size=3)))
 
 
 def items(depth):
